@@ -67,7 +67,7 @@ def describe_line(seg_lines):
     return json.dumps(e)[:400]
 
 
-C15_RESULT_INVS = ["Inv_C01", "Inv_C02", "Inv_C06"]
+C15_RESULT_INVS = ["Inv_C01", "Inv_C02", "Inv_C03", "Inv_C04", "Inv_C05", "Inv_C06"]
 MUTATING_LINES = ("new", "reset", "clear", "Insert", "Delete", "Pre", "GC", "Note")
 
 
@@ -345,7 +345,7 @@ PROP_INVS = {
     "C06": ["Inv_C06"], "C11": ["Inv_C11"], "C14": ["Inv_C14"],
     # C15: the digest is untouched by queries, and - "hence ... without affecting any later result" - results
     # stay the ideal map's with reads interleaved everywhere (attributed to the reads by a differential re-run)
-    "C15": ["Inv_C15", "Inv_C01", "Inv_C02", "Inv_C06"],
+    "C15": ["Inv_C15", "Inv_C01", "Inv_C02", "Inv_C03", "Inv_C04", "Inv_C05", "Inv_C06"],
     "C08": ["Inv_C01", "Inv_C02", "Inv_C05", "Inv_C06", "Inv_C11"],
     "C09": ["Inv_C01", "Inv_C02", "Inv_C03", "Inv_C05", "Inv_C06", "Inv_C11"],
 }
